@@ -1288,11 +1288,18 @@ class BoundsSuite(Suite):
         g = ', '.join(params)
         # the hand-written supertrait impls are sometimes conditional on a marker (`X: Mk`) the field bounds do not imply:
         # the educed impl must then carry `Self: Supertrait` ("together with the trait's supertraits on the type itself")
-        cond = bool(info.get('manual')) and mode == 'auto' and r.random() < 0.35
+        # PartialOrd beside an EDUCED PartialEq (instead of a hand-written one): the supertrait predicate `Self: PartialEq` is then
+        # what carries the PartialEq impl's own (field-wise) conditions into the PartialOrd impl
+        educe_peq = trait == 'PartialOrd' and mode != 'custom' and r.random() < 0.5      # (a custom bound replaces the supertrait predicate too: the user's business)
+        manual = [m for m in info.get('manual', []) if not (educe_peq and m == 'PartialEq')]
+        if educe_peq:
+            t.type_attrs.insert(r.randrange(2), 'PartialEq')
+        cond = bool(manual) and mode == 'auto' and r.random() < 0.35
         gdecl = list(t.generic)
         if cond:
             gdecl[0] = gdecl[0] + (' + Mk' if ':' in gdecl[0] else ': Mk')
-        extra = [MANUAL_IMPL[m] % dict(g=', '.join(gdecl), a=g) for m in info.get('manual', [])]
+        extra = [MANUAL_IMPL[m] % dict(g=', '.join(gdecl), a=g) for m in manual]
+        peq_params = set(f.param for v in t.variants for f in v.fields) if educe_peq else set()
         checks = []
         # Half implements the weaker trait of each companion pair only: a bound on the stronger one shows;
         # Full implements every trait but not the marker Mk
@@ -1301,6 +1308,8 @@ class BoundsSuite(Suite):
             exp = all((c in ('Good', 'Full') or (c == 'Half' and not strong)) for p, c in zip(params, combo) if p in needed)
             if cond and combo[0] != 'Good':
                 exp = False
+            if educe_peq and not all(c in ('Good', 'Half') for p, c in zip(params, combo) if p in peq_params):
+                exp = False         # Self: PartialEq does not hold
             inst = 'T<%s>' % ', '.join(combo)
             checks.append('{ use crate::support::%s::Fallback as _; let g = crate::support::%s::P::<%s>::YES; out.check(g == %s, "%s", "impl_applies", || format!("%s: %s is {} but the delegated fields say %s", g)); }'
                           % (info['probe'], info['probe'], inst, 'true' if exp else 'false', tid, inst, trait, 'true' if exp else 'false'))
